@@ -100,12 +100,14 @@ pub fn ledger_fault() -> Option<String> {
     FAULT.with(|f| f.borrow().clone())
 }
 pub fn ledger_live() -> u64 {
-    NLIVE.with(|c| c.get())
+    let (m, d) = zd_counts();
+    NLIVE.with(|c| c.get()) + m.saturating_sub(d)
 }
 pub fn ledger_created() -> u64 {
     STATE.with(|s| s.borrow().len() as u64)
 }
 pub fn ledger_reset() {
+    zd_reset();
     harness(|| {
         STATE.with(|s| s.borrow_mut().clear());
         NLIVE.with(|c| c.set(0));
@@ -215,4 +217,76 @@ impl El for Tk {
         self.check("write");
         self.id = id
     }
+}
+
+// ---------------------------------------------------------------------------------------------
+// A zero-sized element with a Drop impl: only counts can be ledgered (there is no object identity).
+
+thread_local! {
+    static ZD_MADE: Cell<u64> = const { Cell::new(0) };
+    static ZD_DROPPED: Cell<u64> = const { Cell::new(0) };
+}
+pub fn zd_reset() {
+    ZD_MADE.with(|c| c.set(0));
+    ZD_DROPPED.with(|c| c.set(0));
+}
+/// (created, dropped)
+pub fn zd_counts() -> (u64, u64) {
+    (ZD_MADE.with(|c| c.get()), ZD_DROPPED.with(|c| c.get()))
+}
+
+pub struct Zd;
+impl Zd {
+    fn make() -> Zd {
+        ZD_MADE.with(|c| c.set(c.get() + 1));
+        Zd
+    }
+}
+impl Drop for Zd {
+    fn drop(&mut self) {
+        ZD_DROPPED.with(|c| c.set(c.get() + 1));
+        let (m, d) = zd_counts();
+        if d > m {
+            fault(format!("zero-sized element dropped more often ({}) than created ({})", d, m));
+        }
+    }
+}
+impl Clone for Zd {
+    fn clone(&self) -> Zd {
+        tick(Cb::CloneK);
+        Zd::make()
+    }
+}
+impl PartialEq for Zd {
+    fn eq(&self, _o: &Zd) -> bool {
+        true
+    }
+}
+impl Eq for Zd {}
+impl Hash for Zd {
+    fn hash<H: Hasher>(&self, _h: &mut H) {}
+}
+impl Debug for Zd {
+    fn fmt(&self, f: &mut std::fmt::Formatter<'_>) -> std::fmt::Result {
+        write!(f, "0")
+    }
+}
+impl Default for Zd {
+    fn default() -> Zd {
+        Zd::make()
+    }
+}
+impl El for Zd {
+    const NAME: &'static str = "zd";
+    const ZST: bool = true;
+    fn mk(_id: u32, _k: bool) -> Zd {
+        Zd::make()
+    }
+    fn id(&self) -> u32 {
+        0
+    }
+    fn norm(_id: u32) -> u32 {
+        0
+    }
+    fn set(&mut self, _id: u32) {}
 }
